@@ -156,6 +156,30 @@ func requests(r *mc.Run) {
 					}
 				}
 			}
+			// a second association whose client-to-server key differs from this one's in
+			// one bit: its cookie on a request sealed under this association's key, right
+			// after a genuine request of this association was served
+			// (bits of the first key half only: a request's authenticator encrypts nothing,
+			// and AES-SIV then uses just the S2V half of the key, so keys differing in the
+			// CTR half are indistinguishable by construction, not by a fault of the code)
+			for _, bit := range []int{0, 7, 63, 64, 120, 127} {
+				near := &kit.Session{C2S: bytes.Clone(sess.C2S), S2C: sess.S2C, Provider: nw.Provider}
+				near.C2S[bit/8] ^= 1 << (bit % 8)
+				g, _ := sess.Request(hdr, level)
+				r.Evals += 2
+				if send(g) != 1 {
+					r.Fail("request", "own-request-rejected", fmt.Sprintf("genuine request at level %d rejected on repetition", level), in{Kind: "request-key", Level: level, Bit: bit})
+					break
+				}
+				d := near.Data(level)
+				d.C2sKey = sess.C2S
+				req, _ := nts.NewRequestPacket(d)
+				buf := bytes.Clone(hdr)
+				nts.EncodePacket(&buf, &req)
+				if send(buf) != 0 {
+					r.Fail("request", "request-under-wrong-key-served", fmt.Sprintf("cookie of an association whose key differs in bit %d, request sealed under this association's key: served", bit), in{Kind: "request-key", Level: level, Bit: bit})
+				}
+			}
 			// wrong key / direction / session
 			for name, key := range map[string][]byte{"s2c-instead-of-c2s": sess.S2C, "other-session": other.C2S} {
 				d := sess.Data(level)
@@ -257,6 +281,23 @@ func responses(r *mc.Run) {
 			r.Evals++
 			if ok, _ := accept(good, k, uid); ok {
 				r.Fail("response", "response-under-wrong-key-accepted", name, in{Kind: "response-key", Level: ncook})
+			}
+		}
+		// every key differing from the session key in a single bit, presented right
+		// after the genuine packet was verified under the genuine key (so whatever the
+		// implementation keeps per key is warm)
+		if ncook == 1 || ncook == 7 {
+			for bit := 0; bit < 256; bit++ {
+				k := bytes.Clone(key)
+				k[bit/8] ^= 1 << (bit % 8)
+				r.Evals += 2
+				if ok, _ := accept(good, key, uid); !ok {
+					r.Fail("response", "own-response-rejected", fmt.Sprintf("genuine response rejected on repetition %d", bit), in{Kind: "response-key", Level: ncook, Bit: bit})
+					break
+				}
+				if ok, _ := accept(good, k, uid); ok {
+					r.Fail("response", "response-under-wrong-key-accepted", fmt.Sprintf("key with bit %d flipped, right after verification under the genuine key", bit), in{Kind: "response-key", Level: ncook, Bit: bit})
+				}
 			}
 		}
 		// data appended after the authenticator is not authenticated: it must not
@@ -493,6 +534,6 @@ func TestCheck(t *testing.T) {
 		}
 		r.Sample(in{Kind: "request", Level: 5, Byte: 100, Bit: 3})
 		r.Sample(in{Kind: "response-field", Level: 2, Byte: 86, Val: 0xffff})
-		r.Extra["rule"] = "requests of the project's encoder at pool levels 2..8 through the real IP listener, responses with 1..7 cookies through DecodePacket/ProcessResponse, three sealed cookies through Decode/Decrypt (and every ordered pair of them opened in overlap: the first result must survive the second open): every single-bit flip, every extension type/length and nonce/ciphertext length field over 8+3 values, every truncation, wrong key / direction / session, wrong and shortened unique identifier, session keys from the project's ExportKeys on both ends of a real TLS session with packets presented in the opposite direction, unauthenticated fields (unique identifier, cookie, placeholder, unknown, second authenticator) appended after the authenticator; distinct = distinct mutated packets"
+		r.Extra["rule"] = "requests of the project's encoder at pool levels 2..8 through the real IP listener, responses with 1..7 cookies through DecodePacket/ProcessResponse, three sealed cookies through Decode/Decrypt (and every ordered pair of them opened in overlap: the first result must survive the second open): every single-bit flip, every extension type/length and nonce/ciphertext length field over 8+3 values, every truncation, wrong key / direction / session, every single-bit variation of the session key presented right after a genuine verification, wrong and shortened unique identifier, session keys from the project's ExportKeys on both ends of a real TLS session with packets presented in the opposite direction, unauthenticated fields (unique identifier, cookie, placeholder, unknown, second authenticator) appended after the authenticator; distinct = distinct mutated packets"
 	})
 }
